@@ -7,6 +7,10 @@ package main
 import (
 	"fmt"
 	"math/big"
+	"strings"
+
+	"github.com/consensys/gnark/constraint/solver"
+	"github.com/consensys/gnark/std/rangecheck"
 
 	"github.com/consensys/gnark/constraint"
 	"github.com/consensys/gnark/frontend"
@@ -163,6 +167,9 @@ func shortSubs[T emulated.FieldParams](rep *Report, name string, rng *RNG) {
 }
 
 func c12ShortElems(rep *Report, rng *RNG) {
+	topLimbForge[c12Odd](rep, "custom 2^127-1 (3x48)")
+	topLimbForge[c12Small](rep, "custom 2^31-1 (2x16)")
+	topLimbForge[emulated.P384Fp](rep, "p384.Fp")
 	shortSubs[emulated.Secp256k1Fp](rep, "secp256k1.Fp", rng)
 	shortSubs[emulated.BLS12381Fp](rep, "bls12-381.Fp", rng)
 	shortSubs[c12Odd](rep, "custom 2^127-1 (3x48)", rng)
@@ -171,4 +178,95 @@ func c12ShortElems(rep *Report, rng *RNG) {
 	shortElems[emulated.Goldilocks](rep, "goldilocks", rng)
 	shortElems[c12Small](rep, "custom 2^31-1 (2x16)", rng)
 	shortElems[c12Odd](rep, "custom 2^127-1 (3x48)", rng)
+}
+
+// ---- a witness element whose top limb (narrower than the other limbs) is the FIELD quotient x / 2^shift of a small x: with
+// a decomposition hint that answers with that limb itself, only a range check that looks the limb up both shifted and
+// unshifted rejects it
+type topLimbCircuit[T emulated.FieldParams] struct {
+	X emulated.Element[T]
+	R frontend.Variable `gnark:",public"`
+}
+
+func (c *topLimbCircuit[T]) Define(api frontend.API) error {
+	f, err := emulated.NewField[T](api)
+	if err != nil {
+		return err
+	}
+	api.AssertIsEqual(f.IsZero(&c.X), c.R)
+	return nil
+}
+
+func topLimbForge[T emulated.FieldParams](rep *Report, name string) {
+	var t T
+	w, nl := int(t.BitsPerLimb()), int(t.NbLimbs())
+	topw := t.Modulus().BitLen() - w*(nl-1)
+	if topw >= w {
+		return
+	}
+	decompID := solver.GetHintID(rangecheck.DecomposeHint)
+	ccs, err := frontend.Compile(bnQ, r1cs.NewBuilder[constraint.U64], &topLimbCircuit[T]{})
+	if err != nil {
+		rep.Fail("c12:compile-error:top-limb", err.Error(), name)
+		return
+	}
+	limbs := make([]*big.Int, nl)
+	for i := range limbs {
+		limbs[i] = big.NewInt(1)
+	}
+	// first pass: learn the limb width of the range checker
+	base := 0
+	learn := func(q *big.Int, in, out []*big.Int) error {
+		base = int(in[1].Int64())
+		return rangecheck.DecomposeHint(q, in, out)
+	}
+	w0, _ := frontend.NewWitness(&topLimbCircuit[T]{X: rawElement[T](limbs), R: 0}, bnQ)
+	SolveCapture(ccs, w0, 1, solver.OverrideHint(decompID, learn))
+	if base == 0 || topw%base == 0 {
+		rep.Count("top-limb-forge:not-applicable")
+		return
+	}
+	k := (topw + base - 1) / base
+	shift := base*k - topw
+	m := new(big.Int).Mul(big.NewInt(5), new(big.Int).ModInverse(new(big.Int).Lsh(big.NewInt(1), uint(shift)), bnQ))
+	m.Mod(m, bnQ)
+	V := new(big.Int).Mul(m, new(big.Int).Lsh(big.NewInt(1), uint(base*(k-1))))
+	V.Mod(V, bnQ)
+	limbs[nl-1] = V
+	wit, _ := frontend.NewWitness(&topLimbCircuit[T]{X: rawElement[T](limbs), R: 0}, bnQ)
+	forged := func(q *big.Int, in, out []*big.Int) error {
+		if in[2].Cmp(V) == 0 {
+			for i := range out {
+				out[i].SetInt64(0)
+			}
+			out[len(out)-1].Set(m)
+			return nil
+		}
+		return rangecheck.DecomposeHint(q, in, out)
+	}
+	var countID solver.HintID
+	for _, h := range solver.GetRegisteredHints() {
+		if strings.HasSuffix(solver.GetHintName(h), "logderivarg.countHint") || strings.HasSuffix(solver.GetHintName(h), "countHint") {
+			countID = solver.GetHintID(h)
+		}
+	}
+	lenient := func(q *big.Int, in, out []*big.Int) error {
+		nbTable := int(in[0].Int64())
+		for i := range out {
+			out[i].SetInt64(0)
+		}
+		for _, x := range in[2+nbTable:] {
+			if x.IsInt64() && x.Int64() >= 0 && x.Int64() < int64(nbTable) {
+				out[x.Int64()].Add(out[x.Int64()], big.NewInt(1))
+			}
+		}
+		return nil
+	}
+	obs := SolveCapture(ccs, wit, 1, solver.OverrideHint(decompID, forged), solver.OverrideHint(countID, lenient))
+	rep.Eval("top-limb-forge|"+name, true)
+	rep.Count("top-limb-forge:" + obs.Class)
+	if obs.Class == "ok" {
+		rep.Fail("c12:forged-accepted:top-limb-field-quotient", fmt.Sprintf("%s: an element whose %d-bit top limb is 5 / 2^%d in the native field (range checker limb width %d) is accepted as a witness", name, topw, shift, base),
+			map[string]interface{}{"field": name, "top limb width": topw, "base": base})
+	}
 }
